@@ -3,6 +3,7 @@ import SxVerif.Model.PipeDesc
 import SxVerif.Spec.Pipe
 import SxVerif.Generated.StagesPacket
 import Driver.Util
+import Std.Data.HashSet
 
 /-!
 `pipe` cases: N, kinds, wfail, rcvK, opts, observed.
@@ -142,8 +143,323 @@ def parsePipeObs (o : String) : Option PipeObs :=
 
 def showList (l : List String) : String := if l.isEmpty then "-" else ",".intercalate l
 
+/-! ### cancelled runs: acceptance by search
+
+After the cancel every blocking operation of the real code is a `select` that may take either branch, and
+the harness no longer waits for the consequence of each action, so the internal steps between two visible
+tokens are not determined (and a choice made early, e.g. which of two lanes the merge forwards first, may
+only be refuted many tokens later).  The acceptor therefore searches the product of the model's state space
+and the position in the trace, depth first with a memo of the nodes already refuted: from `(s, k)` either
+token `k` happens in `s` (visible step), or one internal step is taken.  Internal steps never include a
+visible one (a write, a consume, an environment send/close, `cancel`).  `ctx` exits are offered only where the
+next token needs them (`D`: the sender, `C`: the error multiplexers); if that search fails, a second one
+offers every step everywhere. -/
+
+def hN (h : UInt64) (n : Nat) : UInt64 := mixHash h (UInt64.ofNat n)
+def hB (h : UInt64) (b : Bool) : UInt64 := mixHash h (if b then 1 else 2)
+def hBytes (h : UInt64) (bs : Bytes) : UInt64 := bs.foldl (fun h x => mixHash h x.toUInt64) (hN h bs.length)
+
+def hErr (h : UInt64) : Err → UInt64
+  | .req r => hN (hN h 1) r.id
+  | .fill r => hN (hN h 2) r.id
+  | .write f => hBytes (hN h 3) f
+  | .rcv k => hN (hN h 4) k
+
+def hPkt (h : UInt64) : Pkt → UInt64
+  | .err e => hErr (hN h 5) e
+  | .buf b r => hN (hN (hN h 6) b) r.id
+
+def hChan (h : UInt64) (c : Chan Pkt) : UInt64 := hB (c.buf.foldl hPkt (hN h c.buf.length)) c.closed
+
+def hW (h : UInt64) : WState → UInt64
+  | .idle => hN h 10 | .got r => hN (hN h 11) r.id | .have b r => hN (hN (hN h 12) b) r.id
+  | .sending p => hPkt (hN h 13) p | .closing => hN h 14 | .finished => hN h 15
+
+def hM (h : UInt64) : MState → UInt64
+  | .idle => hN h 20 | .holding p => hPkt (hN h 21) p | .exiting => hN h 22 | .finished => hN h 23
+
+def hC (h : UInt64) : CState → UInt64
+  | .waiting => hN h 30 | .closing => hN h 31 | .finished => hN h 32
+
+def hS (h : UInt64) : SState → UInt64
+  | .idle => hN h 40 | .work b r todo => hN (hN (hN (hN h 41) b) r.id) todo.length
+  | .report e k => hS (hErr (hN h 42) e) k | .exit1 => hN h 43 | .exit2 => hN h 44 | .finished => hN h 45
+
+/-- identifies a state (64-bit hash) up to everything internal steps can change or depend on -/
+def sysKey (s : Sys) : UInt64 :=
+  let h := hN 7 s.todo.length
+  let h := hB (s.inp.buf.foldl (fun h r => hN h r.id) (hN h s.inp.buf.length)) s.inp.closed
+  let h := s.lanes.foldl (fun h l => hM (hChan (hW h l.w) l.out) l.m) h
+  let h := hS (hC (hN (hChan h s.merged) s.wg) s.closer) s.snd
+  let h := hM (hM (hChan (hChan (hB h s.done) s.errc1) s.errc2) s.em1) s.em2
+  let h := hC (hN (hChan h s.merr) s.ewg) s.ecloser
+  let h := hN (s.pool.foldl hN (hN (hN h s.rcvTodo.length) s.pool.length)) s.nextId
+  let h := (List.range s.nextId).foldl (fun h b => hBytes h (s.mem b)) h
+  hB (hB h s.ctx) s.panic
+
+/-- internal steps offered in state `s`, consumer side first; `lvl` 1 = forwarding steps and item drops,
+    2 = + ctx exits of the sender and the error multiplexers, 3 = + ctx exits of workers and packet
+    multiplexers -/
+def tauEvents (n lvl : Nat) (s : Sys) : List Event :=
+  [Event.ecloser .close, .ecloser .wait, .emux false .send, .emux true .send, .emux false .recv, .emux true .recv,
+   .emux false .done, .emux true .done, .sender .report] ++
+  (if senderAtFree s then [Event.sender .call] else []) ++
+  [Event.sender .recv, .sender .close2, .sender .close1, .closer .close, .closer .wait] ++
+  (List.range n).flatMap (fun i =>
+    [Event.mux i .send, .mux i .recv, .mux i .done, .worker i .send, .worker i .recv, .worker i .close]) ++
+  (if s.ctx then [Event.emux false .drop, .emux true .drop, .sender .drop] ++
+    (List.range n).map (fun i => Event.worker i .drop) else []) ++
+  (if s.ctx && lvl ≥ 2 then [Event.emux false .ctx, .emux true .ctx, .sender .ctx] else []) ++
+  (if s.ctx && lvl ≥ 3 then (List.range n).flatMap (fun i => [Event.worker i .ctx, .mux i .drop, .mux i .ctx]) else [])
+
+/-- internal steps that lose no behaviour when taken at once (partial-order reduction): steps of a process
+    that has no alternative in that state and whose effect no other process can observe differently later —
+    closes and WaitGroup steps, the sender's report (unless it is ctx-guarded and ctx is cancelled) and free;
+    before the cancel also every single-producer / single-consumer hand-over that commits no order between
+    lanes and no visible action (a worker's send into its own channel, a multiplexer's receive, the sender
+    taking an ERROR item).  What stays for the search: which worker takes a request, which lane the merge
+    forwards next, which error multiplexer writes next, the sender taking a frame, and after the cancel every
+    `select` that has a ctx branch. -/
+def eagerEvents (cfg : Cfg) (n : Nat) (s : Sys) : List Event :=
+  [Event.ecloser .close, .ecloser .wait, .emux false .done, .emux true .done, .sender .close2, .sender .close1,
+   .closer .close, .closer .wait] ++
+  (if senderAtFree s then [Event.sender .call] else []) ++
+  (if s.ctx && cfg.gSenderErr then [] else [Event.sender .report]) ++
+  (List.range n).flatMap (fun i => [Event.mux i .done, .worker i .close]) ++
+  (if s.ctx then [] else
+    -- a multiplexer may take an item early only if it can still drop it after the cancel (guarded send)
+    (if cfg.gEMuxSend then [Event.emux false .recv, .emux true .recv] else []) ++
+    (match s.merged.buf with
+      | .buf _ _ :: _ => []
+      | _ => [Event.sender .recv]) ++
+    (List.range n).flatMap (fun i => (if cfg.gMuxSend then [Event.mux i .recv] else []) ++ [Event.worker i .send]) ++
+    (if s.inp.buf.isEmpty then (List.range n).map (fun i => Event.worker i .recv) else []))
+
+/-- apply eager steps until none is enabled; `acc` = events so far, reversed -/
+def normalize (cfg : Cfg) (inp : Input) : Nat → Sys → List Event → Sys × List Event
+  | 0, s, acc => (s, acc)
+  | fuel + 1, s, acc =>
+    match (eagerEvents cfg inp.n s).findSome? (fun e => (step cfg inp s e).map (fun s' => (e, s'))) with
+    | some (e, s') => normalize cfg inp fuel s' (e :: acc)
+    | none => (s, acc)
+
+def tokenEventsC (s : Sys) (tok : String) : Option (List Event × (Sys → Bool)) :=
+  if tok == "K" then some ([.cancel], fun _ => true) else tokenEvents s tok
+
+/-- the token happens in `s`: the (normalized) state after it and the events, reversed, put before `acc` -/
+def tryToken (cfg : Cfg) (inp : Input) (s : Sys) (tok : String) (acc : List Event) : Option (Sys × List Event) :=
+  match tokenEventsC s tok with
+  | none => none
+  | some (evs, chk) =>
+    match run cfg inp s evs with
+    | some s' => if chk s' then some (normalize cfg inp 100000 s' (evs.reverse ++ acc)) else none
+    | none => none
+
+def tokenLevel (tok : String) : Nat := if tok == "D" || tok == "C" then 2 else 1
+
+/-- names of the errors past the sender (reported, or being reported) -/
+def pastSender (s : Sys) : List String :=
+  (match s.snd with | .report e _ => [errName e] | _ => []) ++
+  (s.errc1.buf ++ mPkts' s.em1 ++ s.merr.buf ++ s.errsOut).map pktName
+where mPkts' : MState → List Pkt
+  | .holding p => [p]
+  | _ => []
+
+/-- necessary for acceptance (prunes the search): the errors that travel sender → errc1 → multiplexer → merged
+    error channel are consumed in the order the sender took them from the packet merge, which is the order
+    the packet multiplexers put them there.  `eord` = the sender-path errors in the order of their `E` tokens.
+    An internal step that puts error `x` into the packet merge (or hands it to the sender) while an error
+    consumed before `x` is still behind it can never lead to the observed trace. -/
+def orderOk (eord : List String) (s : Sys) (e : Event) : Bool :=
+  let moved : Option (Pkt × Bool) :=
+    match e with
+    | .mux i .send => match s.lanes[i]? with
+      | some l => (match l.m with | .holding p => some (p, true) | _ => none)
+      | none => none
+    | .sender .recv => (match s.snd, s.merged.buf with | .idle, p :: _ => some (p, false) | _, _ => none)
+    | _ => none
+  match moved with
+  | some (.err x, atMerge) =>
+    let nx := errName x
+    if eord.contains nx then
+      let ahead := pastSender s ++ (if atMerge then s.merged.buf.map pktName else [])
+      (eord.takeWhile (· != nx)).all ahead.contains
+    else true
+  | _ => true
+
+def sndAlive (s : Sys) : Bool :=
+  match s.snd with
+  | .exit1 | .exit2 | .finished => false
+  | _ => true
+
+def muxAlive : MState → Bool
+  | .idle | .holding _ => true
+  | _ => false
+
+/-- necessary for acceptance of the rest of the trace (prunes the search): an error that is consumed later
+    must still be able to reach the consumer, and a later write needs the sender.  `futE` / `futR` = names of
+    the sender-path / receiver errors consumed from here on, `futW` = a write happens from here on. -/
+def futureOk (futE futR : List String) (futW : Bool) (s : Sys) : Bool :=
+  let inMerr := s.merr.buf.map pktName
+  (!futW || sndAlive s) &&
+  (sndAlive s || futE.all fun n => inMerr.contains n ||
+      (s.errc1.buf ++ pastSender.mPkts' s.em1).any (fun p => pktName p == n)) &&
+  (muxAlive s.em1 || futE.all inMerr.contains) &&
+  (muxAlive s.em2 || futR.all inMerr.contains)
+
+/-- positions of the tokens that time-stamp an item: `W` of the frame of request `id`, `E` of an error, `K` -/
+structure Hints where
+  wpos : List (Nat × Nat)
+  epos : List (String × Nat)
+  kpos : Option Nat
+
+def mkHints (toks : List String) : Hints :=
+  let it := toks.zipIdx
+  { wpos := it.filterMap fun (t, i) =>
+      if t.startsWith "W" then
+        ((unhex (((t.drop 1).toString.splitOn ":").headD "")).bind frameId).map fun id => (id, i)
+      else none,
+    epos := it.filterMap fun (t, i) => if t.startsWith "E" then some ((t.drop 1).toString, i) else none,
+    kpos := (it.find? fun (t, _) => t == "K").map (·.2) }
+
+/-- necessary for acceptance (prunes the search): everything between one lane and the sender is FIFO (worker →
+    lane channel → multiplexer → packet merge → sender), so if `x` is ahead of `y` there, `x` passes the
+    sender first: a frame `x` is written before `y` is written / consumed; an error `x` is consumed before an
+    error `y` is, unless `x` is never consumed and the cancel (after which the error multiplexer may drop it)
+    comes before `y` is consumed -/
+def fifoOk (h : Hints) (s : Sys) : Bool :=
+  let deadline : Pkt → Option Nat
+    | .buf _ r => (h.wpos.find? (·.1 == r.id)).map (·.2)
+    | .err e => (h.epos.find? (·.1 == errName e)).map (·.2)
+  let okPair (x y : Pkt) : Bool :=
+    match deadline y with
+    | none => true
+    | some dy =>
+      match x, y with
+      | .buf _ _, _ => (match deadline x with | some dx => dx < dy | none => false)
+      | .err _, .buf _ _ => true
+      | .err _, .err _ =>
+        match deadline x with
+        | some dx => dx < dy
+        | none => (match h.kpos with | some pk => pk < dy | none => false)
+  let rec okSeq : List Pkt → Bool
+    | [] => true
+    | x :: rest => rest.all (okPair x) && okSeq rest
+  let inSender : List Pkt := match s.snd with
+    | .work b r (.write :: _) => [.buf b r]
+    | _ => []
+  s.lanes.all fun l =>
+    okSeq (inSender ++ s.merged.buf ++ pastSender.mPkts' l.m ++ l.out.buf ++
+      (match l.w with | .sending p => [p] | _ => []))
+
+/-- the same for the error a failing write produces: it enters the error path at the `W` token -/
+def writeOrderOk (eord : List String) (s : Sys) (tok : String) : Bool :=
+  if tok.startsWith "W" && tok.endsWith ":1" then
+    let nx := "write:" ++ ((tok.drop 1).toString.splitOn ":").headD ""
+    if eord.contains nx then (eord.takeWhile (· != nx)).all (pastSender s).contains else true
+  else true
+
+structure Memo where
+  refuted : Std.HashSet (UInt64 × Nat) := {}   -- nodes (state, position) from which the rest of the trace cannot happen
+  best : Nat := 0                      -- furthest position reached
+  work : Nat := 0                      -- states expanded
+  budget : Nat
+
+mutual
+/-- from `(s, k)`: the nearest states (over internal steps, breadth first) in which token `k` can happen are
+    tried first, further ones on backtracking; `acc` = events so far, reversed -/
+partial def solveTrace (cfg : Cfg) (inp : Input) (all : Bool) (h : Hints) (eord : List String) (toks : Array String) (k : Nat) (s : Sys)
+    (acc : List Event) (m : Memo) : Option (Sys × List Event) × Memo :=
+  if k ≥ toks.size then (some (s, acc.reverse), m) else
+  let key := (sysKey s, k)
+  if m.refuted.contains key then (none, m) else
+  let m := { m with best := max m.best k }
+  let seen : Std.HashSet UInt64 := (∅ : Std.HashSet UInt64).insert (sysKey s)
+  match solveLayer cfg inp all h eord toks k [(s, acc)] seen m with
+  | (some x, m) => (some x, m)
+  | (none, m) => (none, if m.work ≥ m.budget then m else { m with refuted := m.refuted.insert key })
+
+partial def solveLayer (cfg : Cfg) (inp : Input) (all : Bool) (h : Hints) (eord : List String) (toks : Array String) (k : Nat)
+    (frontier : List (Sys × List Event)) (seen : Std.HashSet UInt64) (m : Memo) :
+    Option (Sys × List Event) × Memo :=
+  if frontier.isEmpty then (none, m) else
+  let tok := toks[k]!
+  let rest := (toks.extract (k + 1) toks.size).toList
+  let futE := rest.filterMap fun t =>
+    if t.startsWith "E" && !t.startsWith "Ercv:" then some (t.drop 1).toString else none
+  let futR := rest.filterMap fun t => if t.startsWith "Ercv:" then some (t.drop 1).toString else none
+  let futW := rest.any (·.startsWith "W")
+  let futE0 := if tok.startsWith "E" && !tok.startsWith "Ercv:" then (tok.drop 1).toString :: futE else futE
+  let futR0 := if tok.startsWith "Ercv:" then (tok.drop 1).toString :: futR else futR
+  let futW0 := futW || tok.startsWith "W"
+  let (r, m) := frontier.foldl (fun (r, m) (u, a) =>
+    match r with
+    | some x => (some x, m)
+    | none =>
+      match (if writeOrderOk eord u tok then
+          (tryToken cfg inp u tok a).filter (fun x => futureOk futE futR futW x.1 && fifoOk h x.1) else none) with
+      | some (u', a') => solveTrace cfg inp all h eord toks (k + 1) u' a' m
+      | none => (none, m)) (none, m)
+  match r with
+  | some x => (some x, m)
+  | none =>
+    if m.work ≥ m.budget then (none, m) else
+    let lvl := if all then 3 else tokenLevel tok
+    let (next, seen', cnt) := frontier.foldl (fun (nx, sn, c) (u, a) =>
+      (tauEvents inp.n lvl u).foldl (fun (nx, sn, c) e =>
+        match (if orderOk eord u e then
+            ((step cfg inp u e).map fun u1 => normalize cfg inp 100000 u1 (e :: a)).filter
+              (fun x => futureOk futE0 futR0 futW0 x.1 && fifoOk h x.1) else none) with
+        | some (u', a') =>
+          let ku := sysKey u'
+          if sn.contains ku then (nx, sn, c) else ((u', a') :: nx, sn.insert ku, c + 1)
+        | none => (nx, sn, c)) (nx, sn, c)) ([], seen, 0)
+    solveLayer cfg inp all h eord toks k next.reverse seen' { m with work := m.work + cnt }
+end
+
+/-- final state and full event list for a visible trace of a cancelled run, or the furthest position any
+    run of the model reaches -/
+def completeSearch (cfg : Cfg) (inp : Input) (toks : List String) : Except Nat (Sys × List Event) :=
+  let ta := toks.toArray
+  let eord := toks.filterMap fun t =>
+    if t.startsWith "E" && !t.startsWith "Ercv:" then some (t.drop 1).toString else none
+  let h := mkHints toks
+  match solveTrace cfg inp false h eord ta 0 (init inp) [] { budget := 60000 } with
+  | (some r, _) => .ok r
+  | (none, m1) =>
+    match solveTrace cfg inp true h eord ta 0 (init inp) [] { budget := 120000 } with
+    | (some r, _) => .ok r
+    | (none, m2) => .error (max m1.best m2.best)
+
+def sortedKeys (l : List String) : String := showList (Spec.Pipe.sortKeys l)
+
+/-- cancel cases (`opts` starts with `cancel=`).
+model output = what the model's run of the observed trace wrote and delivered (`w=`, `e=` from the final model
+state), `d=` whether the trace has `D` (accepted only in a state where `done` is closed), `c=1;s=1`, and the
+trace itself when accepted; without a trace (`fullerr`) the nondeterministic parts are echoed.
+verdict = trace accepted ∧ `Spec.Pipe.holdsCancel` on the observed output. -/
+def handlePipeCancel (items : List Spec.Pipe.Item) (rcvK : Nat) (inp : Input) (obs : String) : String :=
+  match parsePipeObs obs with
+  | none => "BAD-OBS\t0"
+  | some o =>
+    let spec := Spec.Pipe.holdsCancel items rcvK
+        ⟨o.w.filterMap (fun h => if h == "-" then some [] else unhex h), o.e.map parseCause, o.d, o.c, o.s⟩ &&
+        o.w.all (fun h => (unhex h).isSome)
+    if o.t == "-" then
+      s!"w={showList o.w};e={showList o.e};d={b2s o.d};c=1;s=1;t=-\t{b2s spec}"
+    else
+      let toks := o.t.splitOn ","
+      match completeSearch pipeCfg inp toks with
+      | .ok (sf, evs) =>
+        let ok := accepts pipeCfg inp evs && !sf.panic
+        let w := sortedKeys (sf.written.map fun p => hex p.1)
+        let e := sortedKeys (sf.errsOut.map pktName)
+        let t := if ok then o.t else "rejected@replay"
+        s!"w={w};e={e};d={b2s (toks.contains "D")};c=1;s=1;t={t}\t{b2s (ok && spec)}"
+      | .error k => s!"w=?;e=?;d=?;c=1;s=1;t=rejected@{k}\t0"
+
 def handlePipe : List String → Option String
-  | [ns, kinds, wfailS, rcvS, _opts, obs] => do
+  | [ns, kinds, wfailS, rcvS, opts, obs] => do
     let n ← parseNat? ns
     let ks ← (if kinds == "-" then some [] else kinds.toList.mapM kindOfChar)
     let wf ← (splitList wfailS).mapM (·.toNat?)
@@ -154,6 +470,7 @@ def handlePipe : List String → Option String
     let inp : Input := { n := n, reqs := ks.zipIdx.map (fun (k, i) => ⟨i, k, pipeFrame i⟩),
                          rcvErrs := (List.range rcvK).map .rcv,
                          wfail := fun _ bytes => match frameId bytes with | some i => wf.contains i | none => false }
+    if opts.startsWith "cancel=" then return handlePipeCancel items rcvK inp obs
     let po := parsePipeObs obs
     let trace := (po.map (·.t)).getD "-"
     let (tOut, tOk) :=
